@@ -444,10 +444,26 @@ def _exact_float(ctx, rule):
     return _c01.r9_exact_float_discipline(ctx, rule)
 
 
+def _mask_insertion(ctx, rule):
+    from . import c03
+    return c03.r3_mask_insertion(ctx, rule)
+
+
+def _omen_last(ctx, rule):
+    from . import c10
+    return c10.r4_exact_last_transition(ctx, rule)
+
+
+def _omen_cursor(ctx, rule):
+    from . import c10
+    return c10.r5_sibling_cursor_advance(ctx, rule)
+
+
 def rules(tier):
     return [('C04.R1', r1_dispatch), ('C04.R2', r2_structural_recursion), ('C04.R3', r3_mask_slices),
             ('C04.R4', r4_count_write_pairing), ('C04.R5', r5_grouping_kernel), ('C04.R7', r7_group_cardinality),
-            ('C04.R8', _exact_float)]
+            ('C04.R8', _exact_float),
+            ('C04.R9', _mask_insertion), ('C04.R10', _omen_last), ('C04.R11', _omen_cursor)]
 
 
 META = {
